@@ -4,7 +4,7 @@ from concurrent.futures import ThreadPoolExecutor
 sys.path.insert(0, os.path.join(os.path.dirname(os.path.abspath(__file__)), '..', 'lib'))
 import vcommon as V
 
-PROPS = ['props/C03.v', 'regress/C03.v', 'props/C03_src.v']   # regress/C03.v: witnesses that the pre-F3/F4/F5 behaviour violates the spec; its closure also builds model/RulesInst.vo (the glob instance) needed by the correspondence run
+PROPS = ['props/C03.v', 'regress/C03.v', 'props/C03_src.v', 'props/State.v']   # regress/C03.v: witnesses that the pre-F3/F4/F5 behaviour violates the spec; its closure also builds model/RulesInst.vo (the glob instance) needed by the correspondence run
 GEN_OBLIGATIONS = ['C03_keywords_ok']
 ASSUMPTIONS = [
     "the glob matcher is a parameter of every C03 theorem (Section variable gm : pattern -> name -> bool); the executable instance "
